@@ -48,6 +48,9 @@ pub enum Input {
     /// possible); Some(kind) = a queue of that kind is built by pushing `pairs` and writes the
     /// image itself through its `Serialize` impl (round trip checked before the damage)
     Framed { pairs: Vec<(u64, i32)>, faults: Vec<FrameFault>, #[serde(default)] src: Option<Kind> },
+    /// `n` pairs of zero-sized items and priorities (`Queue<(), ()>`, std hasher) from a
+    /// sequence deserializer that reports `hint`
+    Zst { n: usize, hint: Option<usize> },
 }
 
 #[derive(Clone, Copy, Debug, PartialEq, Eq, Serialize, Deserialize)]
@@ -144,6 +147,54 @@ mod framed {
             Some(usize::try_from(self.remaining).unwrap_or(usize::MAX))
         }
     }
+    /// `n` records of two units each
+    pub struct ZstDe {
+        pub n: usize,
+        pub hint: Option<usize>,
+    }
+    struct ZstRec(u8);
+    impl<'de> Deserializer<'de> for ZstDe {
+        type Error = ValueError;
+        fn deserialize_any<V: Visitor<'de>>(self, v: V) -> Result<V::Value, ValueError> {
+            v.visit_seq(self)
+        }
+        forward_to_deserialize_any! { bool i8 i16 i32 i64 i128 u8 u16 u32 u64 u128 f32 f64 char str string bytes byte_buf option unit unit_struct newtype_struct seq tuple tuple_struct map struct enum identifier ignored_any }
+    }
+    impl<'de> SeqAccess<'de> for ZstDe {
+        type Error = ValueError;
+        fn next_element_seed<T: DeserializeSeed<'de>>(&mut self, seed: T) -> Result<Option<T::Value>, ValueError> {
+            if self.n == 0 {
+                return Ok(None);
+            }
+            self.n -= 1;
+            self.hint = self.hint.map(|h| h.saturating_sub(1));
+            seed.deserialize(ZstRec(0)).map(Some)
+        }
+        fn size_hint(&self) -> Option<usize> {
+            self.hint
+        }
+    }
+    impl<'de> Deserializer<'de> for ZstRec {
+        type Error = ValueError;
+        fn deserialize_any<V: Visitor<'de>>(self, v: V) -> Result<V::Value, ValueError> {
+            v.visit_seq(self)
+        }
+        forward_to_deserialize_any! { bool i8 i16 i32 i64 i128 u8 u16 u32 u64 u128 f32 f64 char str string bytes byte_buf option unit unit_struct newtype_struct seq tuple tuple_struct map struct enum identifier ignored_any }
+    }
+    impl<'de> SeqAccess<'de> for ZstRec {
+        type Error = ValueError;
+        fn next_element_seed<T: DeserializeSeed<'de>>(&mut self, seed: T) -> Result<Option<T::Value>, ValueError> {
+            self.0 += 1;
+            if self.0 > 2 {
+                return Ok(None);
+            }
+            seed.deserialize(IntoDeserializer::<ValueError>::into_deserializer(())).map(Some)
+        }
+        fn size_hint(&self) -> Option<usize> {
+            Some(2usize.saturating_sub(self.0 as usize))
+        }
+    }
+
     impl<'de> Deserializer<'de> for Rec {
         type Error = ValueError;
         fn deserialize_any<V: Visitor<'de>>(self, v: V) -> Result<V::Value, ValueError> {
@@ -443,6 +494,41 @@ pub fn run_serde_case(b: &SerdeBody) -> SerdeOut {
                 }
             }
         }
+        Input::Zst { n, hint } => {
+            let (n, hint) = (*n, *hint);
+            let what = format!("{} pairs of zero-sized values with length hint {:?}", n, hint);
+            macro_rules! zst {
+                ($Q:ident, $pop:ident, $peek:ident) => {
+                    guarded(|| -> Result<Option<String>, String> {
+                        let mut q = priority_queue::$Q::<(), ()>::deserialize(framed::ZstDe { n, hint }).map_err(|e| e.to_string())?;
+                        let want = n.min(1);
+                        if q.len() != want || q.iter().count() != want || q.is_empty() != (want == 0) {
+                            return Ok(Some(format!("len() = {}, iter().count() = {}, expected {}", q.len(), q.iter().count(), want)));
+                        }
+                        if q.$peek().is_some() != (want == 1) {
+                            return Ok(Some("peek disagrees with the contents".into()));
+                        }
+                        if q.push((), ()).is_some() != (want == 1) {
+                            return Ok(Some("push of the only possible item returned the wrong previous priority".into()));
+                        }
+                        if q.$pop().is_none() || q.$pop().is_some() || !q.is_empty() {
+                            return Ok(Some("pops after deserialization are wrong".into()));
+                        }
+                        Ok(None)
+                    })
+                };
+            }
+            let r = match b.kind {
+                Kind::Pq => zst!(PriorityQueue, pop, peek),
+                Kind::Dpq => zst!(DoublePriorityQueue, pop_min, peek_max),
+            };
+            match r {
+                Err(e) => panic_fail(e, what),
+                Ok(Err(_)) => SerdeOut { fail: None, outcome: "err" },
+                Ok(Ok(Some(m))) => SerdeOut { fail: Some(fail("de_usable", format!("{}: {}", what, m))), outcome: "invalid" },
+                Ok(Ok(None)) => SerdeOut { fail: None, outcome: "ok" },
+            }
+        }
         Input::Framed { pairs, faults, src } => {
             let img = match src {
                 None => frame_image(pairs, faults),
@@ -638,7 +724,17 @@ impl Engine for SerdeEngine {
             _ => r.range(-5, 5) as i32,
         };
         let which = r.below(5);
-        let input = if which == 4 {
+        let input = if r.chance(1, 40) {
+            let n = r.usize(6);
+            let hint = match r.below(5) {
+                0 => None,
+                1 => Some(n),
+                2 => Some(0),
+                3 => Some(n + 1 + r.usize(100)),
+                _ => Some(usize::MAX >> r.below(4)),
+            };
+            Input::Zst { n, hint }
+        } else if which == 4 {
             let n = match r.below(6) {
                 0 => 0,
                 1 => 1,
@@ -716,6 +812,10 @@ impl Engine for SerdeEngine {
                 let n0 = ids.len();
                 ids.dedup();
                 ids.len() < n0
+            }
+            Input::Zst { n, hint } => {
+                acc.bump("probes", "via_zero_sized_values", 1);
+                *n > 1 && hint.is_some()
             }
             Input::Framed { pairs, faults, src } => {
                 acc.bump("probes", if src.is_some() { "via_LengthPrefixedBinary_written_by_the_queue" } else { "via_LengthPrefixedBinary_raw_pairs" }, 1);
@@ -806,6 +906,15 @@ impl Engine for SerdeEngine {
                 }
                 if *via != Via::Json {
                     out.push(Input::Pairs { pairs: pairs.clone(), via: Via::Json });
+                }
+            }
+            Input::Zst { n, hint } => {
+                if *n > 0 {
+                    out.push(Input::Zst { n: n - 1, hint: *hint });
+                }
+                if hint.is_some() {
+                    out.push(Input::Zst { n: *n, hint: None });
+                    out.push(Input::Zst { n: *n, hint: Some(*n) });
                 }
             }
             Input::Framed { pairs, faults, src } => {
